@@ -25,6 +25,9 @@ PARTIAL = []
 KNOWN_PREDICATES = {}
 
 H_A = 'h_c04a'
+# tier B routines with a Lean model (lean/NmVerif/Index/{Stack,Split,SlidingWindow,Diagonal,Where,Compress,Resize,Expand}.lean)
+MODELLED_BC = {'stack', 'hstack', 'vstack', 'dstack', 'column_stack', 'split', 'sliding_window', 'diagonal', 'diagflat',
+               'tril', 'triu', 'tri', 'eye', 'identity', 'where', 'compress', 'resize', 'expand'}
 
 
 def harness_specs(tier):
@@ -296,4 +299,9 @@ def gen(tier, rng):
     yield from gen_pad(tier, rng)
     yield from gen_take(tier, rng)
     yield from gen_concatenate(tier, rng)
-    yield from c04_bc.gen_bc(tier, rng)
+    for c in c04_bc.gen_bc(tier, rng):
+        if c.req.split(' ', 1)[0] in MODELLED_BC:
+            # the Lean model answers these too; inputs inside a known-defect class are outside the modelled domain
+            c.model = True
+            c.dom = not any(f(c) for f in c04_bc.KNOWN_PREDICATES_BC.values())
+        yield c
